@@ -1,6 +1,8 @@
 """Uncontrolled aggregator runs in a fresh interpreter, the way the repository's example distributes
 work: forked worker processes (NonDaemonicPool, ProcessPoolExecutor) or a thread pool.
-usage: python -m harness.aggstress <nondaemonic|future|threads> <dir> <name,name,...>
+usage: python -m harness.aggstress <nondaemonic|future|threads|reopen|reopen-keep> <dir> <name,name,...>
+(reopen: one process creates an aggregator on the same output file again and again - the earlier object
+dropped and collected, or kept alive - and resubmits the subjects: a notebook cell run twice)
 prints one JSON line: the AggObs trace (a single event: the final files)."""
 from __future__ import annotations
 
@@ -33,8 +35,33 @@ def main():
     header, rows = reference_rows(sorted(set(names)), d)
     from panoptica import Panoptica_Aggregator
     out = d / "out.tsv"
-    AGG = Panoptica_Aggregator(make_evaluator(), str(out))
-    if mode == "nondaemonic":
+    failed = 0
+    if mode in ("reopen", "reopen-keep"):
+        import gc
+        uniq = list(dict.fromkeys(names))
+        keep = []
+        ev = make_evaluator()
+        try:
+            AGG = Panoptica_Aggregator(ev, str(out))
+            for n in uniq[:2]:
+                work(n)
+            for rnd in range(2):
+                if mode == "reopen-keep":
+                    keep.append(AGG)
+                AGG = Panoptica_Aggregator(ev, str(out))      # again, on the same file; the old object is garbage
+                if mode == "reopen":
+                    gc.collect()
+                for n in uniq[: 3 + rnd * 10]:                 # everything submitted so far again, plus new subjects
+                    work(n)
+                gc.collect()
+        except BaseException as e:  # noqa: BLE001
+            failed = 1
+            sys.stderr.write(f"reopen failed: {type(e).__name__}: {e}\n")
+    else:
+        AGG = Panoptica_Aggregator(make_evaluator(), str(out))
+    if mode in ("reopen", "reopen-keep"):
+        pass
+    elif mode == "nondaemonic":
         from panoptica.utils import NonDaemonicPool
         with NonDaemonicPool(6) as pool:
             pool.map(work, names)
@@ -55,7 +82,7 @@ def main():
         pass
     files = {"out_A": read_lines(out, header, rows, True)}
     obs = {"outs": ["out_A"], "subjects": {"out_A": sorted(set(names))}, "prior": [],
-           "init": {"out_A": {"ex": False, "ls": []}}, "ev": [{"files": files, "snaps": snap, "mid": [], "failed": 0}], "ends": [1], "foreign": False, "ctorfailed": False}
+           "init": {"out_A": {"ex": False, "ls": []}}, "ev": [{"files": files, "snaps": snap, "mid": [], "failed": failed}], "ends": [1], "foreign": False, "ctorfailed": False}
     _real_stdout.write(json.dumps({"mode": mode, "names": names, "obs": obs}) + "\n")
     _real_stdout.flush()
 
